@@ -109,6 +109,7 @@ Proof.
     destruct (inc_completed _ _ _); simpl; left; apply set_nth_length.
   - destruct (_ <? _); simpl; auto. left. apply set_nth_length.
   - destruct (nth_error _ _); simpl; auto. destruct (f_pad _); simpl; auto.
+  - destruct (create_chunk _ _ _ _ _); simpl; auto.
 Qed.
 
 (* the bitfield always has one bit per piece *)
@@ -206,7 +207,7 @@ Example run_ex :
    OutMark true;
    OutQuery 4 [3; 3; 3; 3]
      [(mkFile 0 2 false 0 1, 0); (mkFile 2 0 false 0 0, 0); (mkFile 2 5 false 0 3, 1);
-      (mkFile 7 1 true 2 3, 1); (mkFile 8 0 false 2 2, 1); (mkFile 8 4 false 2 4, 1)]
+      (mkFile 7 1 true 2 3, 1); (mkFile 8 0 false 2 2, 0); (mkFile 8 4 false 2 4, 1)]
      1 (Some 3) (Some 9);
    OutDump [Some []; Some []; Some [0; 0; 0; 0; 17]; None; Some []; Some [0; 0; 0; 0]]].
 Proof. vm_compute. reflexivity. Qed.
